@@ -265,7 +265,7 @@ def gen_op(rng, sim, budget):
                          ([w[0] - F(1, 2)] if w and w[0] > F(1, 2) and rng.random() < 0.5 else []) +
                          ([w[-1] + 1] if w and rng.random() < 0.5 else [])))
         return {'k': 'resample', 'g': fs(pts)}
-    if u < 0.42:
+    if u < 0.29:
         bad = rnd_grid(rng, rng.randint(1, 5), start=rnd_point(rng, w) if w else None)
         bad = [x if x > 0 else F(1, 4) for x in bad]
         kind = rng.random()
@@ -278,7 +278,7 @@ def gen_op(rng, sim, budget):
         else:
             bad = [F(rng.choice([0, -1]))] + [x for x in bad]
         return {'k': 'resample', 'g': fs(bad)}
-    if u < 0.47:
+    if u < 0.33:
         return {'k': 'resample', 'g': []}
     lo = (w[0] if w else F(2)) - F(rng.randint(-2, 3), 2)
     if lo <= 0:
@@ -375,12 +375,12 @@ def gen_sample(rng):
 
 def generate(rng, tier):
     quick = tier == 'quick'
-    nseq, maxlen = (450, 8) if quick else (5000, 25)
+    nseq, maxlen = (450, 8) if quick else (12000, 25)
     for _ in range(nseq):
         yield gen_seq(rng, maxlen)
-    for _ in range(350 if quick else 4000):
+    for _ in range(350 if quick else 10000):
         yield gen_integrate(rng)
-    for _ in range(400 if quick else 5000):
+    for _ in range(400 if quick else 12000):
         yield gen_bin(rng)
     for _ in range(60 if quick else 600):
         yield gen_ends(rng)
@@ -834,7 +834,7 @@ def oracle(c, impl):
     if op == 'bin':
         cs = fx(fl(c['c']))
         if 'err' in impl:
-            if len(cs) >= 2 and c['rule'] == 'trapz':
+            if len(cs) >= 2 and c['rule'] == 'trapz' and w:
                 return f'bin raised {impl["err"]}'
             return None
         if impl['after'] != {'w': fl(c['w']), 'v': fl(c['v'])}:
